@@ -30,7 +30,7 @@ CHECKS = {
     },
     "C06": {
         "category": "model_checking",
-        "text": "TLC proves StreamOwned on Pool.tla; the simulated network keeps a ledger of every stream opened/closed with its owning connection, which is part of the state TLC matches after every quantum of every recorded execution (faults and cancellations at every point, pool close at the end).",
+        "text": "TLC proves StreamOwned on Pool.tla; the simulated network keeps a ledger of every stream opened/closed with its owning connection, which is part of the state TLC matches after every quantum of every recorded execution (faults and cancellations at every point, pool close at the end). Round 5: a 101 upgrade scenario in the pool part, and an Establish part - TLC proves FailureClosesStream on Establish.tla and the end-of-log clause of EstablishTrace ('no stream left open after a failed establishment') judges a failure at every establishment operation of the case matrix.",
         "design_ref": "DESIGN.md A3, A4 (C06); plan: Part B 4, 5",
         "technique": "TLA+ model checking (TLC) + trace validation on the stream ledger",
         "note": POOL_NOTE,
@@ -44,7 +44,7 @@ CHECKS = {
     },
     "C09": {
         "category": "model_checking",
-        "text": "TLC checks that the algorithmic pass implements the declarative relation (reuse first, surplus-idle bound, no stale hand-out, closes only with a reason) on Pool.tla; sequential histories over {request, clock advance, server-side close} x (max_connections, max_keepalive_connections, keepalive_expiry) are executed on the real pool with virtual time and validated by TLC.",
+        "text": "TLC checks that the algorithmic pass implements the declarative relation (reuse first, surplus-idle bound, no stale hand-out, closes only with a reason) on Pool.tla; sequential histories over {request, clock advance, server-side close} x (max_connections, max_keepalive_connections, keepalive_expiry) are executed on the real pool with virtual time and validated by TLC. Round 5: 2-4 idle connections of different origins going stale together, then a request for each origin.",
         "design_ref": "DESIGN.md A3, A4 (C09); plan: Part B 4, 5",
         "technique": "TLA+ model checking (TLC) + trace validation of keep-alive histories",
         "note": POOL_NOTE,
@@ -66,21 +66,21 @@ CHECKS.update({
     },
     "C11": {
         "category": "model_checking",
-        "text": "TLC proves the proxy-hop clauses (CONNECT first and only its 2xx opens the tunnel, refusal stops, secrets only on the proxy hop, caller data never in CONNECT, SOCKS names the origin and offers the configured method, forwarding uses absolute-form with proxy headers merged beneath the caller's) on Establish.tla; the real proxies are run for every case x reply script with marker strings planted in credentials, proxy headers, caller headers and body, and TLC replays the logs.",
+        "text": "TLC proves the proxy-hop clauses (CONNECT first and only its 2xx opens the tunnel, refusal stops, secrets only on the proxy hop, caller data never in CONNECT, SOCKS names the origin and offers the configured method, forwarding uses absolute-form with proxy headers merged beneath the caller's) on Establish.tla; the real proxies are run for every case x reply script with marker strings planted in credentials, proxy headers, caller headers and body, and TLC replays the logs. Round 5: concretisation variants of every case (the caller's 'target' extension; an IPv6 literal as origin), a SOCKS proxy that picks a method which was not offered, and a Pool part: the request-target form each hop sees is read off the peers' parsers for EVERY transmission of a request (re-sends after ConnectionNotAvailable) through a forwarding proxy and a tunnel, as a clause of PoolTrace.",
         "design_ref": "DESIGN.md A3, A4 (C11); plan: Part B 4, 5",
         "technique": "TLA+ model checking (TLC) + lock-step trace validation with taint markers",
         "note": EST_NOTE,
     },
     "C16": {
         "category": "model_checking",
-        "text": "Operation timeouts: TLC proves TimeoutTag on Establish.tla and replays the operation logs of every connection type with four distinct timeout values (and with none). Pool timeout: TLC proves PoolTimeoutExact on Pool.tla (deadline before / at / after a release, zero timeout) and validates executions of the real pool on the virtual clock, including the clock jumping to the deadline between any two scheduling quanta. Exchange phase: OpTimeouts.tla judges the complete operation log of calls whose responses force many reads and writes (interim 1xx, chunked, close-delimited, uploads in parts, HTTP/1.1 and HTTP/2, tiny segmentation, reuse): every operation carries the value configured for its kind, or None when nothing was configured.",
+        "text": "Operation timeouts: TLC proves TimeoutTag on Establish.tla and replays the operation logs of every connection type with four distinct timeout values (and with none). Pool timeout: TLC proves PoolTimeoutExact on Pool.tla (deadline before / at / after a release, zero timeout) and validates executions of the real pool on the virtual clock, including the clock jumping to the deadline between any two scheduling quanta. Exchange phase: OpTimeouts.tla judges the complete operation log of calls whose responses force many reads and writes (interim 1xx, chunked, close-delimited, uploads in parts, HTTP/1.1 and HTTP/2, tiny segmentation, reuse): every operation carries the value configured for its kind, or None when nothing was configured. Round 5: uploads larger than the HTTP/2 window (the read made while waiting for credit carries the READ timeout), early-closed responses, a connect timeout shorter than the back-off pauses.",
         "design_ref": "DESIGN.md A3, A4 (C16); plan: Part B 4, 5",
         "technique": "TLA+ model checking (TLC) + trace validation (operation logs and pool executions on a virtual clock)",
         "note": EST_NOTE + " " + POOL_NOTE,
     },
     "C20": {
         "category": "model_checking",
-        "text": "TLC proves RetryBound / RetryOnlyConnect / BackoffSequence / LastErrorRaised / NoRetryAfterEstablished on Establish.tla for N in 0..4; the real direct connection (TCP and TLS stage, sync and async) is run for EVERY outcome sequence of length <= N+2 over {ok, ConnectError, ConnectTimeout, other} and for failures after establishment, and TLC replays each log (connect / start_tls / sleep(d) operations) in lock step.",
+        "text": "TLC proves RetryBound / RetryOnlyConnect / BackoffSequence / LastErrorRaised / NoRetryAfterEstablished on Establish.tla for N in 0..4; the real direct connection (TCP and TLS stage, sync and async) is run for EVERY outcome sequence of length <= N+2 over {ok, ConnectError, ConnectTimeout, other} and for failures after establishment, and TLC replays each log (connect / start_tls / sleep(d) operations) in lock step. Round 5: the same outcome scripts with a connect timeout shorter than the back-off pauses.",
         "design_ref": "DESIGN.md A3, A4 (C20); plan: Part B 4, 5",
         "technique": "TLA+ model checking (TLC) + exhaustive lock-step trace validation",
         "note": EST_NOTE,
@@ -102,28 +102,28 @@ CHECKS.update({
     },
     "C03": {
         "category": "model_checking",
-        "text": "ReqWire.tla defines, for every request shape (method, target kind incl. the target extension and '*', header list shape, caller-supplied Host / Content-Length / Transfer-Encoding, body as bytes or any iterator chunking, illegal heads), what an independent parser must read from the wire on HTTP/1.1 and HTTP/2; TLC checks the default-header laws over the whole shape space and judges what the parsers read from the bytes the real pool wrote (first use and reuse of the connection, sync and async twin). Pool part: on a SHARED HTTP/2 connection the other callers' requests must still reach the server decodable when a caller fails or is cancelled at any point - PoolTrace clause m.connerr (a connection-level HTTP/2 error may appear only on a connection that was given an injected fault).",
+        "text": "ReqWire.tla defines, for every request shape (method, target kind incl. the target extension and '*', header list shape, caller-supplied Host / Content-Length / Transfer-Encoding, body as bytes or any iterator chunking, illegal heads), what an independent parser must read from the wire on HTTP/1.1 and HTTP/2; TLC checks the default-header laws over the whole shape space and judges what the parsers read from the bytes the real pool wrote (first use and reuse of the connection, sync and async twin). Pool part: on a SHARED HTTP/2 connection the other callers' requests must still reach the server decodable when a caller fails or is cancelled at any point - PoolTrace clause m.connerr (a connection-level HTTP/2 error may appear only on a connection that was given an injected fault). Round 5: heads HTTP/2 cannot encode are part of the shape space; every transmission ATTEMPT of a request (every new stream on any connection) is judged; histories with a refused head between legal requests on one HTTP/2 connection; an H2Wire part (iterator uploads with an early response head on small windows, an illegal head among live streams, gated bodies under a held write).",
         "design_ref": "DESIGN.md A3, A4 (C03); plan: Part B 4, 5",
         "technique": "TLA+ specification as enumerator and oracle (TLC) + trace validation of parsed wire images",
         "note": SEQ_NOTE,
     },
     "C15": {
         "category": "exploration",
-        "text": "Errors.tla is the taxonomy stage x cause -> allowed exception classes (TLC checks it is closed under the documented set); malformed inputs of every class at every stage (HTTP/1.1 head/body, HTTP/2 preface/frames/HPACK/:status, CONNECT replies, SOCKS5 replies), seeded mutations of valid conversations, every backend exception at every operation and invalid requests are run through the real pool, and TLC judges the class (and defining module) of what the caller saw; a hang has no action. 'Every byte sequence' is unbounded, so this is an exploration with a TLA+ oracle.",
+        "text": "Errors.tla is the taxonomy stage x cause -> allowed exception classes (TLC checks it is closed under the documented set); malformed inputs of every class at every stage (HTTP/1.1 head/body, HTTP/2 preface/frames/HPACK/:status, CONNECT replies, SOCKS5 replies), seeded mutations of valid conversations, every backend exception at every operation and invalid requests are run through the real pool, and TLC judges the class (and defining module) of what the caller saw; a hang has no action. 'Every byte sequence' is unbounded, so this is an exploration with a TLA+ oracle. Round 5: malformed answers while two callers share the HTTP/2 connection (both outcomes judged), invalid requests over HTTP/2 (known finding KF13).",
         "design_ref": "DESIGN.md A3, A4 (C15); plan: Part B 4, 5",
         "technique": "exploration (enumerated malformation classes + seeded mutation) judged by a TLA+ taxonomy with TLC",
         "note": SEQ_NOTE,
     },
     "C17": {
         "category": "model_checking",
-        "text": "TLC proves Conservation / Bounded on Upgrade.tla for every tail length, lead, cut set and max_bytes sequence within the bounds; the real HTTP/1.1 connection is driven through 101 and CONNECT-2xx responses with those segmentations and read sequences (sync and async twin) and TLC replays every recorded read in lock step; afterwards the connection must not be idle and writes must have passed through unchanged.",
+        "text": "TLC proves Conservation / Bounded on Upgrade.tla for every tail length, lead, cut set and max_bytes sequence within the bounds; the real HTTP/1.1 connection is driven through 101 and CONNECT-2xx responses with those segmentations and read sequences (sync and async twin) and TLC replays every recorded read in lock step; afterwards the connection must not be idle and writes must have passed through unchanged. Round 5: caller variants - the empty body is read first; a second task is parked in read() while the caller writes.",
         "design_ref": "DESIGN.md A3, A4 (C17); plan: Part B 4, 5",
         "technique": "TLA+ model checking (TLC) + lock-step trace validation",
         "note": SEQ_NOTE,
     },
     "C19": {
         "category": "model_checking",
-        "text": "UrlModel.tla gives RFC 3986 component splitting over URL shapes (scheme, userinfo, host kind incl. IPv6 literals, port kind, path kind incl. ';parameters' / dot segments / escapes, query, fragment, str/bytes) with the origin and Host-header laws checked by TLC over the shape space; every shape is concretised, parsed by httpcore.URL, serialised and re-parsed, sent through a pool to read the Host header off the wire, and judged by TLC (UrlTrace).",
+        "text": "UrlModel.tla gives RFC 3986 component splitting over URL shapes (scheme, userinfo, host kind incl. IPv6 literals, port kind, path kind incl. ';parameters' / dot segments / escapes, query, fragment, str/bytes) with the origin and Host-header laws checked by TLC over the shape space; every shape is concretised, parsed by httpcore.URL, serialised and re-parsed, sent through a pool to read the Host header off the wire, and judged by TLC (UrlTrace). Round 5: mixed-case IPv6 literals, an explicit port 0.",
         "design_ref": "DESIGN.md A3, A4 (C19); plan: Part B 4, 5",
         "technique": "TLA+ specification as enumerator and oracle (TLC) + trace validation of observations",
         "note": SEQ_NOTE,
@@ -146,14 +146,14 @@ CHECKS.update({
     },
     "C12": {
         "category": "model_checking",
-        "text": "TLC proves PermitAccounting, StreamCap, deadlock freedom and NoWedge (liveness under a fair server) on H2Conn.tla for all interleavings of 3 requests with SETTINGS changes and resets, and shows the code's deviation (SETTINGS lowered: the reader blocks on the semaphore inside the read lock) deadlocks; the real pool talks to a driver-controlled HTTP/2 server under DFS / random orders of client operations and server frames, and TLC replays each wire log against H2Wire (StreamCap on every new stream, Isolation at every return, NoWedge at the end).",
+        "text": "TLC proves PermitAccounting, StreamCap, deadlock freedom and NoWedge (liveness under a fair server) on H2Conn.tla for all interleavings of 3 requests with SETTINGS changes and resets, and shows the code's deviation (SETTINGS lowered: the reader blocks on the semaphore inside the read lock) deadlocks; the real pool talks to a driver-controlled HTTP/2 server under DFS / random orders of client operations and server frames, and TLC replays each wire log against H2Wire (StreamCap on every new stream, Isolation at every return, NoWedge at the end). Round 5: the pool at its connection limit with a request for another origin queued while a request waits for a stream slot.",
         "design_ref": "DESIGN.md A3, A4 (C12); plan: Part B 4, 5",
         "technique": "TLA+ model checking incl. liveness (TLC) + trace validation of wire logs",
         "note": H2_NOTE,
     },
     "C13": {
         "category": "model_checking",
-        "text": "TLC proves FlowSafe / UploadExact and upload completion (liveness) on H2Conn.tla for one and two uploads sharing the connection window and shows the 're-read after the lock' deviation deadlocks; uploads of 0, 1, 12, 65535, 65536 and 3x65535 bytes against server-chosen tiny / default windows, INITIAL_WINDOW_SIZE changes, stream-only / connection-only grants of various sizes and a long-poll neighbour are run on the real client and each DATA frame is checked by TLC against the windows as the server accounts them (H2Wire.CData); large downloads check that credit is returned.",
+        "text": "TLC proves FlowSafe / UploadExact and upload completion (liveness) on H2Conn.tla for one and two uploads sharing the connection window and shows the 're-read after the lock' deviation deadlocks; uploads of 0, 1, 12, 65535, 65536 and 3x65535 bytes against server-chosen tiny / default windows, INITIAL_WINDOW_SIZE changes, stream-only / connection-only grants of various sizes and a long-poll neighbour are run on the real client and each DATA frame is checked by TLC against the windows as the server accounts them (H2Wire.CData); large downloads check that credit is returned. Round 5: gated iterator uploads with a SETTINGS shrink between two chunks; 18 abandoned 1 MiB responses followed by a download (known finding KF14).",
         "design_ref": "DESIGN.md A3, A4 (C13); plan: Part B 4, 5",
         "technique": "TLA+ model checking incl. liveness (TLC) + trace validation of wire logs",
         "note": H2_NOTE,
@@ -170,7 +170,7 @@ CHECKS.update({
 CHECKS.update({
     "C18": {
         "category": "model_checking",
-        "text": "SyncAsync.tla walks PAIRS of event logs in lock step: every single-caller scenario of the corpus (sequential pool histories with a fault at every operation, scripted nested histories with virtual time and the response-object protocol, the Establish case matrix with failure scripts, request shapes on the wire) is run through the async classes and through the sync classes and TLC requires the same operations with the same arguments, the same bytes (length + crc32), the same results and exception classes and the same pool / connection state strings at every step. Side check outside the family, reported under its own key: httpcore/_sync is compared over the full length of every file with a fresh run of the repository's own unasync rules.",
+        "text": "SyncAsync.tla walks PAIRS of event logs in lock step: every single-caller scenario of the corpus (sequential pool histories with a fault at every operation, scripted nested histories with virtual time and the response-object protocol, the Establish case matrix with failure scripts, request shapes on the wire) is run through the async classes and through the sync classes and TLC requires the same operations with the same arguments, the same bytes (length + crc32), the same results and exception classes and the same pool / connection state strings at every step. Side check outside the family, reported under its own key: httpcore/_sync is compared over the full length of every file with a fresh run of the repository's own unasync rules. Round 5: the library's own hand-written mock back ends (segments around the read size), HTTP/2 / upgrade / proxy histories.",
         "design_ref": "DESIGN.md A3, A4 (C18); plan: Part B 4, 5",
         "technique": "TLA+ lock-step trace validation of sync/async log pairs (TLC) + translation diff side check",
         "note": "Trusted: TLC 1.8.0; the two drivers present the same simulated network to both variants; crc32 digests stand for byte strings. Single-caller scenarios only.",
@@ -180,7 +180,7 @@ CHECKS.update({
 CHECKS.update({
     "C08": {
         "category": "model_checking",
-        "text": "Pool.tla in THREAD mode (cfg.threads: enqueue, pass, closing of evicted connections, the refusal at the ACTIVE gate and the re-queue are separate steps; tasks interleave at every lock and network operation) is model-checked by TLC for every pool invariant plus NoCollateral and, under fairness, Progress (no lost wake-up). The real httpcore.ConnectionPool is then run by real threads under a controlled baton-passing scheduler (httpcore._synchronization.threading replaced at run time by scheduler-aware Lock/Event/Semaphore; pre-emption at every lock acquire/release, Event.wait and simulated network operation) over serial, round-robin, pre-emption-bounded (all single, sampled pairs), PCT and random schedules; TLC validates every execution against PoolTrace in thread mode. Schedules that additionally pre-empt at random SOURCE LINES of httpcore/_sync/*.py are judged by the monitor ThreadCoarse.tla (own response, at most one stream, limit, no failing operation, no internal error, no hang, pool at rest).",
+        "text": "Pool.tla in THREAD mode (cfg.threads: enqueue, pass, closing of evicted connections, the refusal at the ACTIVE gate and the re-queue are separate steps; tasks interleave at every lock and network operation) is model-checked by TLC for every pool invariant plus NoCollateral and, under fairness, Progress (no lost wake-up). The real httpcore.ConnectionPool is then run by real threads under a controlled baton-passing scheduler (httpcore._synchronization.threading replaced at run time by scheduler-aware Lock/Event/Semaphore; pre-emption at every lock acquire/release, Event.wait and simulated network operation) over serial, round-robin, pre-emption-bounded (all single, sampled pairs), PCT and random schedules; TLC validates every execution against PoolTrace in thread mode. Schedules that additionally pre-empt at random SOURCE LINES of httpcore/_sync/*.py are judged by the monitor ThreadCoarse.tla (own response, at most one stream, limit, no failing operation, no internal error, no hang, pool at rest). Round 5: every single line-level pre-emption of a warm two-thread scenario is enumerated (970 executions); threads multiplexed on one HTTP/2 connection are judged by the ThreadCoarse monitor (known finding KF12: duplicate stream id).",
         "design_ref": "DESIGN.md A3, A4 (C08); plan: Part B 4, 5",
         "technique": "TLA+ model checking (TLC, thread-grain Pool) + TLC trace validation of executions of the real sync pool under a controlled thread scheduler",
         "note": "Trusted: TLC 1.8.0, harness/tsched.py (scheduler, fake primitives), simnet. 2-4 threads, one request each, HTTP/1.1 origins; line-grain schedules are sampled, not enumerated, and judged only by the coarse monitor. KF09 (evicted connection activated) is a listed finding.",
